@@ -19,14 +19,29 @@ func init() {
 			"(5) MonoNode's epoch derives from time.Now() through Add only (monotonic reading preserved) and Generate reads the clock with time.Since(epoch); (6) NewNode seeds time/step with IDFields(last id). " +
 			"NOT decided: uniqueness across nodes, overflow of the timestamp field, the operating system's monotonic-clock contract (assumed for MonoNode: time.Since(epoch) never decreases).",
 		Assumptions: []string{"invariant 0 <= step <= stepMax (established by obligation 4)", "MonoNode: the monotonic clock never decreases"},
-		Floors:      map[string]int{"C06.guarded-by": 4, "C06.progress": 4, "C06.not-older-than-clock": 1, "C06.step-discipline": 2, "C06.node-discipline": 2, "C06.compose": 2, "C06.mono-source": 2, "C06.restart-seed": 3},
+		Floors:      map[string]int{"C06.guarded-by": 4, "C06.progress": 4, "C06.not-older-than-clock": 1, "C06.step-discipline": 2, "C06.node-discipline": 2, "C06.compose": 2, "C06.mono-source": 2, "C06.restart-seed": 4},
 		Run:         runC06,
 	})
 }
 
 func runC06(c *Ctx) {
 	const rel = "idgen/snowflake"
-	noInl := func(callee *ssa.Function, depth int) bool { return false }
+	// helpers of the generator's own package are entered (an extracted `advance`, `sinceEpochMs`, `checkNode` must not
+	// hide the logic); the layout functions stay opaque because the rules name their results
+	noInl := func(callee *ssa.Function, depth int) bool {
+		if depth > 3 || !c.fnInModule(callee) || callee.Pkg == nil {
+			return false
+		}
+		p := callee.Pkg.Pkg.Path()
+		if !strings.HasSuffix(p, "/idgen/snowflake") && !strings.HasSuffix(p, "/idgen/nano") {
+			return false
+		}
+		switch callee.Name() {
+		case "figureShift", "IDFields", "IDParse", "IDParseEx":
+			return false
+		}
+		return true
+	}
 	for _, typ := range []string{"HardNode", "MonoNode"} {
 		mu := c.mustField(rel, typ, "mu")
 		tm := c.mustField(rel, typ, "time")
@@ -70,6 +85,7 @@ func runC06(c *Ctx) {
 				}
 			}
 			T1, S1 := T0, S0
+			stepStoreAt := -1
 			var nowSyms []*Sym
 			for i, e := range t.Events {
 				if e.Kind == EvStore && e.Addr.isFieldAddrOf(tm) {
@@ -77,18 +93,7 @@ func runC06(c *Ctx) {
 				}
 				if e.Kind == EvStore && e.Addr.isFieldAddrOf(step) {
 					S1 = e.Val
-					// (4) step discipline
-					good := false
-					if z, isC := e.Val.intConst(); isC && z == 0 {
-						good = true
-					}
-					if isMasked(e.Val) {
-						good = true
-					}
-					if !good && okStep {
-						okStep = false
-						c.violated("C06.step-discipline", name, e.Pos, "step is assigned a value that is neither 0 nor masked with stepMax: it can leave [0, stepMax] and spill into the neighbouring id field: "+c.short(e.Val.Key()), c.witness(t, i)...)
-					}
+					stepStoreAt = i
 				}
 				if e.Kind == EvCall && (strings.Contains(e.callName(), "UnixNano") || strings.Contains(e.callName(), "Nanoseconds") || e.callName() == "time.Since") {
 					_ = i
@@ -119,6 +124,22 @@ func runC06(c *Ctx) {
 					nowSyms = append(nowSyms, f.X)
 				}
 			}
+			// (4) step discipline, on the value the step has when the id is composed: 0, masked with stepMax, or the
+			// old step plus one on a path that found it below 1<<StepBits
+			boundedInc := S1.Kind == KBin && S1.Op == token.ADD && S1.Args[0].Key() == S0.Key() && isIntConst(S1.Args[1], 1) && hasFact(facts, func(f Fact) bool {
+				k, isK := f.Y.intConst()
+				return f.X.Key() == S1.Key() && isK && ((f.Op == token.LSS && k == 4096) || (f.Op == token.LEQ && k == 4095))
+			})
+			if stepStoreAt >= 0 {
+				good := isMasked(S1) || boundedInc
+				if z, isC := S1.intConst(); isC && z == 0 {
+					good = true
+				}
+				if !good && okStep {
+					okStep = false
+					c.violated("C06.step-discipline", name, t.Events[stepStoreAt].Pos, "the step the id is composed from is neither 0, nor masked with stepMax, nor the old step plus one on a path that found it below 1<<StepBits: it can leave [0, stepMax] and spill into the neighbouring id field: "+c.short(S1.Key()), c.witness(t, stepStoreAt)...)
+				}
+			}
 			// (2) progress
 			prog := ""
 			switch {
@@ -131,6 +152,8 @@ func runC06(c *Ctx) {
 				return f.X.Key() == S1.Key() && isz && z == 0 && f.Op == token.NEQ
 			}):
 				prog = "T1 = T0 and S1 = (S0+1)&stepMax != 0"
+			case (T1.Key() == T0.Key() || hasFact(facts, func(f Fact) bool { return f.X.Key() == T1.Key() && f.Y.Key() == T0.Key() && f.Op == token.EQL })) && boundedInc:
+				prog = "T1 = T0 and S1 = S0+1 < 1<<StepBits"
 			case typ == "MonoNode" && T1.Key() != T0.Key() && isClock(T1) && hasFact(facts, func(f Fact) bool { return f.X.Key() == T1.Key() && f.Y.Key() == T0.Key() && f.Op == token.NEQ }):
 				prog = "T1 is a monotonic clock reading != T0 (assumption: never decreases, hence > T0)"
 			}
@@ -260,7 +283,22 @@ func orParts(s *Sym) []*Sym {
 
 func (c *Ctx) checkSnowflakeCtors() {
 	const rel = "idgen/snowflake"
-	noInl := func(callee *ssa.Function, depth int) bool { return false }
+	// helpers of the generator's own package are entered (an extracted `advance`, `sinceEpochMs`, `checkNode` must not
+	// hide the logic); the layout functions stay opaque because the rules name their results
+	noInl := func(callee *ssa.Function, depth int) bool {
+		if depth > 3 || !c.fnInModule(callee) || callee.Pkg == nil {
+			return false
+		}
+		p := callee.Pkg.Pkg.Path()
+		if !strings.HasSuffix(p, "/idgen/snowflake") && !strings.HasSuffix(p, "/idgen/nano") {
+			return false
+		}
+		switch callee.Name() {
+		case "figureShift", "IDFields", "IDParse", "IDParseEx":
+			return false
+		}
+		return true
+	}
 	for _, ct := range []struct{ fn, typ string }{{"NewNode", "HardNode"}, {"NewMonoNode", "MonoNode"}} {
 		fn := c.mustFn(rel, ct.fn)
 		node := c.field(rel, ct.typ, "node")
@@ -341,6 +379,23 @@ func (c *Ctx) checkSnowflakeCtors() {
 			c.holds("C06.restart-seed", "snowflake.NewNode", fn.Pos(), "time, _, step = IDFields(min)")
 		}
 	}
+	// (6a) the decoder NewNode relies on returns the whole timestamp field (every bit above node+step): a fixed
+	// 41-bit mask truncates it for the 8/9-bit node layouts, and a restarted node then re-issues old ids
+	if fn := c.mustFn(rel, "IDFields"); fn != nil {
+		traces, _ := c.Trace(fn, TraceConfig{})
+		good, n := true, 0
+		for _, t := range traces {
+			if t.End != EndReturn || len(t.Ret) != 3 {
+				continue
+			}
+			n++
+			r := t.Ret[0]
+			if !(r.Kind == KBin && r.Op == token.SHR && r.Args[0].Key() == "$"+fn.Params[0].Name()) {
+				good = false
+			}
+		}
+		c.check(good && n > 0, "C06.restart-seed", "snowflake.IDFields time", fn.Pos(), "time = id >> timeShift, unmasked", "the timestamp IDFields returns is not the whole field above node and step (id >> timeShift): NewNode seeds a restarted node with a truncated time and the node issues ids at or below the last one")
+	}
 	// (6b) the unix-nano generators resume from the restart point they are given
 	for _, ctor := range []string{"NewUnixNanoID", "NewUnixNanoNoLockID"} {
 		fn := c.mustFn("idgen/nano", ctor)
@@ -408,6 +463,20 @@ func (c *Ctx) checkSnowflakeCtors() {
 					switch e.callName() {
 					case "time.Since":
 						n++
+						// MonoNode compares readings with ==: they must enter the critical section in clock order,
+						// i.e. be taken while the node's mutex is held
+						if muF := c.field(rel, "MonoNode", "mu"); muF != nil && ok {
+							held := false
+							for _, h := range t.heldLocks(i) {
+								if _, is := lockIsField(h, muF); is {
+									held = true
+								}
+							}
+							if !held {
+								ok = false
+								c.violated("C06.mono-source", "(*snowflake.MonoNode).Generate", e.Pos, "the clock is read before the node's mutex is taken: a caller can enter the critical section with a reading older than the node's time, the `now == n.time` test then restarts an already used millisecond at step 0 and ids repeat", c.witness(t, i)...)
+							}
+						}
 						if _, isE := isInitOfField(e.Args[0], epoch); !isE && ok {
 							ok = false
 							c.violated("C06.mono-source", "(*snowflake.MonoNode).Generate", e.Pos, "the clock is not read relative to the node's monotonic epoch", c.witness(t, i)...)
